@@ -17,11 +17,11 @@ RULE = ("templates of 1-15 operations on 1-5 modes whose positional arguments ar
         "parameters repeated across operations and positions, constants elsewhere; generic real values; the instance itself and 2 (quick) / 6 "
         "(thorough) random linear extensions of its per-mode order; one structural edit per negative case; non-trivial = >=3 operations, a "
         "repeated parameter and (a reordering that differs from the identity or a negative case); distinct by SHA-1 of template+values+order")
-BUDGET = {"quick": 560, "thorough": 12000}
+BUDGET = {"quick": 400, "thorough": 12000}
 MIN_NONTRIVIAL = {"quick": 200, "thorough": 3000}
 REQUIRED_FUNCTIONS = ["utils.py:match_template", "utils.py:to_DiGraph", "program.py:BlackbirdProgram.__call__"]
 FUNCTIONS = REQUIRED_FUNCTIONS + ["utils.py:match_template.<locals>.node_match"]
-REQUIRED_TAGS = ["reordered", "repeated-parameter", "form:bare", "form:negated", "form:affine", "form:divided", "neg:gate", "neg:modes", "neg:order", "neg:version", "neg:target"]
+REQUIRED_TAGS = ["reordered", "repeated-parameter", "form:bare", "form:negated", "form:affine", "form:divided", "neg:gate", "neg:modes", "neg:modes-permuted", "neg:order", "neg:version", "neg:target"]
 ASSUMPTIONS = ["per-mode order = order of operations sharing a mode (register arguments are not generated here)", "returned values are compared at relative 1e-9"]
 
 
@@ -165,6 +165,9 @@ def check_case(ctx, text, vals, tags, witness=None):
     if pairs:
         edits.append("order")
         edits.append("order")
+    multi = [i for i in range(n) if len(set(P.operations[i]["modes"])) >= 2]
+    if multi:
+        edits += ["modes-permuted", "modes-permuted"]
     edit = rng.choice(edits)
     ops = copy.deepcopy(P.operations)
     ver = tgt = None
@@ -173,6 +176,9 @@ def check_case(ctx, text, vals, tags, witness=None):
     elif edit == "modes":
         o = ops[rng.randrange(n)]
         o["modes"] = [m + 20 for m in o["modes"]] if rng.random() < 0.5 else o["modes"] + [33]
+    elif edit == "modes-permuted":
+        o = ops[rng.choice(multi)]
+        o["modes"] = o["modes"][1:] + o["modes"][:1]
     elif edit == "version":
         ver = "2.0"
     elif edit == "target":
